@@ -104,6 +104,41 @@ fn main() {
             what: format!("neg {a}"), name: "neg".into(), form: "var".into(),
         });
     }
+    // chains `(x op1 c1) op2 c2` with a variable x and two literal operands: two consecutive *Imm instructions, the
+    // shape a reassociating peephole rule would rewrite; the first inexact step must decide the outcome
+    let small: Vec<i64> = vec![-5, -2, -1, 0, 1, 2, 3, 5, 7, 64, -64, 1 << 32, -(1 << 32)];
+    let edge: Vec<i64> = vec![i64::MAX, i64::MAX - 1, i64::MAX - 2, i64::MAX - 5, i64::MIN, i64::MIN + 1, i64::MIN + 2, i64::MIN + 5,
+                              i64::MAX / 2, i64::MAX / 2 + 1, i64::MIN / 2, i64::MIN / 2 - 1, 0, 1, -1];
+    let n_chain = if ctx.quick() { 700 } else { 20000 };
+    let chain_ops: Vec<(&str, &str)> = OPS.iter().filter(|(n, _)| *n != "pow").cloned().collect();
+    let mut chains: Vec<(usize, usize, i64, i64, i64)> = vec![
+        (0, 0, i64::MAX, 1, -1), (0, 0, i64::MIN + 1, -2, 5), (0, 1, i64::MAX, 1, 1), (1, 0, i64::MIN, 1, 1), (2, 3, i64::MAX, 2, 2),
+        (2, 2, i64::MIN, -1, -1), (3, 2, i64::MIN, -1, 0), (0, 4, i64::MAX, 1, 7), (1, 1, i64::MIN, 3, -3), (0, 0, i64::MAX - 2, 5, -5),
+    ];
+    for _ in 0..n_chain {
+        let x = if ctx.rng.chance(3, 4) { *ctx.rng.pick(&edge) } else { ctx.rng.next() as i64 };
+        let c1 = if ctx.rng.chance(4, 5) { *ctx.rng.pick(&small) } else { *ctx.rng.pick(&g) };
+        let c2 = if ctx.rng.chance(1, 3) { c1.checked_neg().unwrap_or(1) } else { *ctx.rng.pick(&small) };
+        chains.push((ctx.rng.below(chain_ops.len() as u64) as usize, ctx.rng.below(chain_ops.len() as u64) as usize, x, c1, c2));
+    }
+    for (i1, i2, x, c1, c2) in chains {
+        let ((n1, s1), (n2, s2)) = (chain_ops[i1], chain_ops[i2]);
+        let spec = match spec(n1, x, c1) {
+            Some(r) if r.starts_with("ok ") => spec(n2, r[3..].parse::<i64>().unwrap(), c2),
+            other => other,
+        };
+        for (form, src) in [
+            ("chain", format!("let x = {}\nprintln((x {s1} ({})) {s2} ({}))\n", lit(x), lit(c1), lit(c2))),
+            ("chainfn", format!("fn f(x: int) -> int {{ (x {s1} ({})) {s2} ({}) }}\nprintln(f({}))\n", lit(c1), lit(c2), lit(x))),
+            ("chainlet", format!("let x = {}\nlet r = (x {s1} ({})) {s2} ({})\nprintln(r)\n", lit(x), lit(c1), lit(c2))),
+        ] {
+            jobs.push(Job {
+                req: format!("i64 chain {n1} {n2} {x} {c1} {c2} #{form}"),
+                src, spec: spec.clone(), what: format!("{form} ({x} {s1} {c1}) {s2} {c2}"),
+                name: format!("chain:{n1}:{n2}"), form: form.to_string(),
+            });
+        }
+    }
     let results = par_map(&jobs, |j| render(&run_program(&j.src)));
     for (j, imp) in jobs.iter().zip(results) {
         let class = if imp.starts_with("ok") { "ok".to_string() } else { imp.replace(' ', "_") };
